@@ -56,9 +56,11 @@ META = {
 # (Pubs, NewSvcs, Clears, NInit, FilterOn)
 QUICK = [(("d1", "d2"), ("n1",), (), 1, True),
          (("d1",), ("n1", "n2"), (), 0, False)]
-THOROUGH = QUICK + [(("d1", "d2"), ("n1", "n2"), (), 1, True),
-                    (("d1", "d2", "d3"), ("n1",), (), 1, False),
-                    (("d1", "d2"), ("n1",), ("c1",), 2, True)]
+THOROUGH = QUICK + [(("d1", "d2"), ("n1",), ("c1",), 2, True),          # 1 762 words
+                    (("d1", "d2", "d3"), (), (), 1, False),             # 1 680 words
+                    (("d1", "d2"), ("n1", "n2"), (), 1, True),          # 5 896 words: sampled (-simulate, seeded)
+                    (("d1", "d2", "d3"), ("n1",), (), 1, False)]        # 52 750 words: sampled
+SAMPLED = {4: 400, 5: 400}                                               # config index -> number of simulated behaviours
 
 
 def tla_set(xs):
@@ -105,13 +107,29 @@ def run_config(ctx, cfg, idx):
                 constants=consts(cfg, False), timeout=1200,
                 expect_violation="AllHaveLatest")
     # 2. all complete words of the as-written step structure
-    res = ctx.tlc("lookup", "AddrLookupPub", cfg="AddrLookupPub_gen" + sfx, mode="gen", constants=consts(cfg, False), timeout=2400)
-    words = res.replays
+    if idx in SAMPLED:
+        res = ctx.tlc("lookup", "AddrLookupPub", cfg="AddrLookupPub_gen" + sfx, mode="sim", sim=SAMPLED[idx], depth=40,
+                      constants=consts(cfg, False), timeout=2400)
+        seen, words = set(), []
+        for w in res.replays:
+            k = json.dumps(w["word"])
+            if k not in seen:
+                seen.add(k)
+                words.append(w)
+        ctx.cov["exhaustive_except_sampled_configs"] = True
+    else:
+        res = ctx.tlc("lookup", "AddrLookupPub", cfg="AddrLookupPub_gen" + sfx, mode="gen", constants=consts(cfg, False), timeout=2400)
+        words = res.replays
     if not words:
         raise ToolError("TLC printed no words for %s" % (cfg,))
     init = ["s0", "s1", "s2"][:ninit]
     cases = [{"case": idx * 100000 + i, "init_svcs": init, "pubs": list(pubs), "adders": list(news), "clears": list(clears),
               "filter": filt, "word": w["word"]} for i, w in enumerate(words)]
+    # thorough: the same actors running freely (no step is forced; whatever interleaving the scheduler produces is judged)
+    nfree = ctx.pick(0, 40)
+    words = list(words) + [None] * nfree
+    cases += [{"case": idx * 100000 + 50000 + i, "init_svcs": init, "pubs": list(pubs), "adders": list(news),
+               "clears": list(clears), "filter": filt, "word": []} for i in range(nfree)]
     return words, cases
 
 
@@ -141,13 +159,14 @@ def judge_config(ctx, cfg, words, cases, obs, tag):
         raise ToolError("judge returned %d verdicts for %d observations:\n%s" % (len(holds), len(ok), res.out[-2000:]))
     nblocked = 0
     for k, (w, c, o) in enumerate(ok, start=1):
-        add_race, overlap = schedule_class(cfg, c["word"])
-        forced_all = o["blocked"] is None and o["forced"] == len(c["word"])
-        nblocked += 0 if forced_all else 1
+        free = w is None
+        add_race, overlap = (len(news) > 0, len(pubs) > 1) if free else schedule_class(cfg, c["word"])
+        forced_all = (not free) and o["blocked"] is None and o["forced"] == len(c["word"])
+        nblocked += 0 if (forced_all or free) else 1
         ctx.count(case_key=[list(pubs), list(news), list(clears), ninit, filt, [[s["a"], s["step"]] for s in c["word"]]],
                   nontrivial=True)
-        replay = {"cfg": cfg, "case": c, "model": {"services": w["services"], "got": w["got"], "last": w["last"], "holds": w["holds"]},
-                  "observed": o}
+        replay = {"cfg": cfg, "case": c, "observed": o,
+                  "model": None if free else {"services": w["services"], "got": w["got"], "last": w["last"], "holds": w["holds"]}}
         last = o["last"]
         latest = {"d": last["d"], "f": last["f"]} if last["some"] else None
         if not published[k]:
@@ -179,6 +198,44 @@ def judge_config(ctx, cfg, words, cases, obs, tag):
                         "blocked_at": o["blocked"], "got": o["got"], "last_data": o["last"], "property_holds": holds[k]})
     ctx.cov.setdefault("words_not_fully_forced", 0)
     ctx.cov["words_not_fully_forced"] += nblocked
+    if not ctx.quick and tag != "replay":
+        selftest(ctx, cfg, [o for k, (w, c, o) in enumerate(ok, start=1) if holds[k]], tag)
+
+
+def selftest(ctx, cfg, good, tag):
+    """Binding self-test: corrupt one field of an accepted observation -> the TLC judge must reject it."""
+    import copy
+    pubs = cfg[0]
+    bad = []
+    for o in good:
+        if len(bad) >= 12:
+            break
+        if o["last"]["some"] and len(pubs) >= 2:
+            x = copy.deepcopy(o)
+            x["last"]["d"] = [d for d in pubs if d != o["last"]["d"]][0]       # another datum is the latest
+            if x["services"]:
+                bad.append(x)
+        for s in o["services"]:
+            if o["got"][s]:
+                x = copy.deepcopy(o)
+                x["got"][s] = x["got"][s][:-1]                                  # the last delivery never happened
+                if not x["got"][s] or x["got"][s][-1] != o["got"][s][-1]:
+                    bad.append(x)
+                    break
+    if not bad:
+        return
+    tracefile = ctx.write_ndjson("c30-%s.selftest" % tag, [{"services": o["services"], "got": o["got"], "last": o["last"]} for o in bad])
+    res = ctx.tlc("lookup", "Judge_AddrLookupPub", mode="gen", coverage=False, constants=consts(cfg, False),
+                  env={"TRACE": tracefile}, timeout=1200)
+    accepted = set()
+    for line in res.printed:
+        if line.startswith('<<"VERDICT"'):
+            parts = [p.strip() for p in line.strip("<>").split(",")]
+            if parts[3] == "TRUE":
+                accepted.add(int(parts[1]))
+    if accepted:
+        raise ToolError("binding self-test: corrupted observations %s were accepted by the judge" % sorted(accepted))
+    ctx.cov["binding_selftests"] = ctx.cov.get("binding_selftests", 0) + len(bad)
 
 
 def run(ctx):
@@ -189,7 +246,7 @@ def run(ctx):
         outp = ctx.path("c30-replay.out")
         ctx.run_bin("vh_lookup", ["c30", "--in", ctx.write_ndjson("c30-replay.in", [case]), "--out", outp])
         obs = ctx.read_ndjson(outp)
-        judge_config(ctx, cfg, [rep["model"] | {"word": case["word"]}], [case], obs, "replay")
+        judge_config(ctx, cfg, [None if rep["model"] is None else dict(rep["model"], word=case["word"])], [case], obs, "replay")
         return
     configs = ctx.pick(QUICK, THOROUGH)
     gen = []
@@ -208,6 +265,6 @@ def run(ctx):
         at += len(cases)
     ctx.cov["rule"] = ("every complete word (interleaving of sub-steps) of the AddrLookupPub spec for the configured actor sets, "
                        "forced on real threads; every observed quiescent state judged by TLC")
-    ctx.cov["exhaustive"] = True
+    ctx.cov["exhaustive"] = not ctx.cov.get("exhaustive_except_sampled_configs", False)
     ctx.assume("a thread that is past its gate and asleep for 25 ms is blocked on a lock of the code under test")
     ctx.assume("std::sync::RwLock admits a new reader while another reader holds the lock and no writer waits")
